@@ -204,6 +204,8 @@ def gen_program(seed, size=12, features=None):
             kinds.append("brk")
         if g.feat.get("clo", True) and depth > 0 and ints:
             kinds.append("cloarr")
+        if g.feat.get("for", True) and depth > 0:
+            kinds.append("forstep")
         if g.feat.get("forin", True) and depth > 0 and sc_.of(lambda ty: ty[0] == "darr"):
             kinds.append("forin")
         if g.feat.get("enum", True) and depth > 0:
@@ -346,6 +348,40 @@ def gen_program(seed, size=12, features=None):
                 out_a.append({"k": "print", "e": V(m)})
             for fi in range(2):
                 out_a.append({"k": "print", "e": {"k": "field", "e": V(n), "f": "AB"[fi]}})
+            return True
+        if kind == "forstep":
+            # for j in lo..hi:step with the step held in a variable (sometimes through a cast from another width); the
+            # step variable stays assignable afterwards
+            i32 = BYNAME["i32"]
+            k = r.choice([1, 2, 3, -1, -2, 0, 5])
+            a, b = r.randint(0, 3), r.randint(3, 8)
+            lo, hi, st, j = g.fresh("lo"), g.fresh("hi"), g.fresh("st"), g.fresh("j")
+            if k < 0:
+                a, b = b, a
+            out_a += [{"k": "let", "n": lo, "dty": "i32", "e": lit_ast(i32, a)}, {"k": "let", "n": hi, "dty": "i32", "e": lit_ast(i32, b)}]
+            if r.random() < 0.4:
+                t8 = BYNAME[r.choice(["i8", "i16", "i64"])]
+                src = g.fresh("w")
+                out_a.append({"k": "let", "n": src, "dty": t8[0], "e": lit_ast(t8, k)})
+                sc_.vars[src] = ("int", t8)
+                step = {"k": "cast", "e": V(src), "ty": tyj(i32)}
+            else:
+                out_a.append({"k": "let", "n": st, "dty": "i32", "e": lit_ast(i32, k)})
+                sc_.vars[st] = ("int", i32)
+                step = V(st)
+            inner = Scope(g)
+            inner.vars = dict(sc_.vars)
+            inner.vars[j] = ("int", i32)
+            inner.frozen = set(sc_.frozen) | {j, lo, hi, st}
+            ba, dummy = [{"k": "print", "e": V(j)}], []
+            for _ in range(r.randint(0, 1)):
+                stmt(inner, ba, dummy, ind + 1, depth - 1)
+            out_a.append({"k": "forstep", "n": j, "ty": tyj(i32), "lo": V(lo), "hi": V(hi), "st": step, "b": ba})
+            sc_.vars[lo] = ("int", i32)
+            sc_.vars[hi] = ("int", i32)
+            sc_.frozen |= {lo, hi}
+            if step["k"] == "var" and r.random() < 0.5:        # the step changes AFTER the loop
+                out_a.append({"k": "assign", "lv": V(st), "e": lit_ast(i32, -k if k else 1)})
             return True
         if kind == "cloarr":
             # function literals created in the iterations of a loop, each over a variable declared in the loop body,
@@ -866,6 +902,10 @@ def rblock(b, ind, out):
             out.append(pad + "}")
         elif k == "for":
             out.append(pad + "for %s in %s..%s {" % (s["n"], rexpr(s["lo"]), rexpr(s["hi"])))
+            rblock(s["b"], ind + 1, out)
+            out.append(pad + "}")
+        elif k == "forstep":
+            out.append(pad + "for %s in %s..%s:%s {" % (s["n"], rexpr(s["lo"]), rexpr(s["hi"]), rexpr(s["st"])))
             rblock(s["b"], ind + 1, out)
             out.append(pad + "}")
         elif k == "forin":
